@@ -120,13 +120,13 @@ func C15(ctx *core.Ctx) int {
 						cls += " [no function of that name is defined anywhere in the script]"
 					}
 				}
-				ctx.Report(fmt.Sprintf("the dissector aborts|%s|%s", cls, where),
+				ctx.Report(fmt.Sprintf("the dissector aborts|%s|%s", cls, where)+shapeSuffix(pc.Prog.Name),
 					fmt.Sprintf("program %s message %s bytes %s: %v\n%s", pc.Prog.Name, msg.ID, core.Trunc(hexOf(enc.Bytes), 200), err, core.Trunc(pc.Text, 600)), mrep)
 				continue
 			}
 			distinct.Store(core.Hash(fmt.Sprint(s.Adds)), true)
 			if d := c15Compare(pc, enc, s); d != "" {
-				ctx.Report(d,
+				ctx.Report(d+shapeSuffix(pc.Prog.Name),
 					fmt.Sprintf("program %s message %s bytes %s\nrecorded adds: %s\n%s", pc.Prog.Name, msg.ID, core.Trunc(hexOf(enc.Bytes), 200), core.Trunc(fmtAdds(s.Adds), 900), core.Trunc(pc.Text, 600)), mrep)
 				continue
 			}
@@ -162,6 +162,15 @@ func C15(ctx *core.Ctx) int {
 	ctx.Assumes = append(ctx.Assumes, "the emitted Lua is run by an interpreter for the subset the generator prints, not by Wireshark; 64-bit reads are modelled as numbers (more permissive than Wireshark's UInt64 userdata)",
 		"the byte range of an object / payload subtree item is not checked (only leaf fields and prefixes)", "ProtoField.int is provided although Wireshark has no such constructor (permissive stub)")
 	return ctx.Finish("exploration", cov)
+}
+
+// shapeSuffix names the hand-written shapes (P5, P6) in a signature: each is its own situation, and a known
+// finding in one of them must not mask a new defect in another. The systematic families are named by situation only.
+func shapeSuffix(name string) string {
+	if c := progClass(name); strings.HasPrefix(c, "P5/") || strings.HasPrefix(c, "P6/") {
+		return "|" + c
+	}
+	return ""
 }
 
 // reachedVia says how the root packet reaches a nested packet: through a match on a key of some type, or as an object member.
